@@ -188,12 +188,13 @@ deriving Repr
 def doStartCompression (x : RespIn) (p : Prep) (c : Coding) : Except PErr Prep :=
   let streaming := !x.isResponse || x.chunked || (match x.body with | .payload _ => true | _ => false)
   if streaming then
-    if c == .identity then .ok p
+    if c = .identity then .ok p
     else .ok { p with ce := some c, wcompress := true, cl := none }
   else
-    if c == .identity then .ok p
-    else if x.body == .none then .error .compressNoBody
-    else .ok { p with ce := some c, bodyCompressed := true, cl := some x.zlen }
+    if c = .identity then .ok p
+    else match x.body with
+      | .none => .error .compressNoBody
+      | _ => .ok { p with ce := some c, bodyCompressed := true, cl := some x.zlen }
 
 /-- `Response.content_length` / `StreamResponse.content_length` as read by `_prepare_headers` -/
 def contentLengthProp (x : RespIn) (p : Prep) : Option Nat :=
@@ -452,8 +453,14 @@ def truthy : Option Bool → Bool
   | some true => true
   | _ => false
 
-/-- `ClientRequest.__init__` (body/encoding/expect steps) + `_send` -/
-def reqPrep (x : ReqIn) : Except QErr ReqOut :=
+/-- `ClientRequestBase._send`: the `Connection` header by version / connector mode -/
+def reqConn (x : ReqIn) : Option Bool :=
+  if x.userConn.isSome then none
+  else if x.connForceClose then (if x.ver.is11 then some true else none)
+  else if x.ver.is10 then some false else none
+
+/-- `ClientRequest.__init__` (body/encoding/expect steps), `_create_writer`, `_should_write` -/
+def reqCore (x : ReqIn) : Except QErr ReqOut :=
   -- _update_content_encoding
   let r1 : Except QErr (Option Coding × Option Bool) :=
     if !x.dataTruthy then .ok (none, x.chunked)
@@ -490,17 +497,18 @@ def reqPrep (x : ReqIn) : Except QErr ReqOut :=
   | .error e => .error e
   | .ok te =>
     let expect := x.expect100 || x.userExpect
-    -- _send
-    let conn : Option Bool :=
-      if x.userConn.isSome then none
-      else if x.connForceClose then (if x.ver.is11 then some true else none)
-      else if x.ver.is10 then some false else none
     -- _get_content_length (only evaluated when a writer task is started)
     let bodySizeNonZero := if x.hasData then x.size != some 0 else false
     let writes := bodySizeNonZero || expect
     if writes && x.userCL == some none then .error .badCL else
-    .ok { cl, te, conn, ce := comp, expect, wchunked := chunked.isSome, wcompress := comp.isSome,
+    .ok { cl, te, conn := none, ce := comp, expect, wchunked := chunked.isSome, wcompress := comp.isSome,
           writes, limit := if clPresent then cl else none }
+
+/-- `ClientRequest.__init__` + `_send` -/
+def reqPrep (x : ReqIn) : Except QErr ReqOut :=
+  match reqCore x with
+  | .error e => .error e
+  | .ok o => .ok { o with conn := reqConn x }
 
 /-- number of body bytes `write_with_length` hands to the writer -/
 def reqSent (_x : ReqIn) (o : ReqOut) (actual : Nat) : Nat :=
@@ -537,5 +545,49 @@ def reqVerdict (x : ReqIn) (actual : Nat) : Except QErr ReqVerdict :=
     let wire := writerFraming o.wchunked (if o.wchunked then none else some sent) false sent
     let (view, close) := serverView x.method x.ver (reqRecvHdr x o)
     .ok { out := o, wire, view, serverClose := close }
+
+end Aio.C02
+
+namespace Aio.C02
+open Aio
+
+/-! ## glue used by the theorem statements -/
+
+/-- projection of what `Aio.Http.onHeaderBlock` returns onto a `View` -/
+def viewOf (r : Http.St × List Http.Ev × Bool) : View :=
+  { framing := match r.1.payload with
+      | none => .none
+      | some p => match p.type with
+        | .length => .length p.length
+        | .chunked => .chunked
+        | .untilEof => .untilClose
+        | .none => .none
+    hasPayload := match r.2.1 with
+      | .msg _ hp :: _ => hp
+      | _ => false
+    upgraded := r.1.upgraded }
+
+/-- data bytes of a list of parser events -/
+def dataOf : List Http.Ev → Bytes
+  | [] => []
+  | .data bs :: t => bs ++ dataOf t
+  | _ :: t => dataOf t
+
+/-- feed the segments of a connection to the payload parser of one message, one
+`HttpPayloadParser.feed_data` call per segment: `(body bytes delivered, some leftover)` where
+the leftover (bytes after the end of this body, available to the next message) is present iff
+the parser reported the body complete -/
+def payloadRun (cfg : Http.Cfg) : Http.PState → List Bytes → Bytes → Bytes × Option Bytes
+  | _, [], acc => (acc, none)
+  | p, s :: ss, acc =>
+    match Http.payloadFeed cfg p s with
+    | (.complete rest, evs) => (acc ++ dataOf evs, some (rest ++ ss.flatten))
+    | (.needs p', evs) => payloadRun cfg p' ss (acc ++ dataOf evs)
+    | (.err _ _, evs) => (acc ++ dataOf evs, none)
+
+/-- the `StreamWriter` as `_prepare_headers` / `_write_headers` leave it: header block `hb`
+buffered, framing as decided -/
+def mkWriter (wlength : Option Nat) (wchunked : Bool) (hb : Bytes) : C04.W :=
+  { length := wlength, chunked := wchunked, headersBuf := some hb }
 
 end Aio.C02
